@@ -236,7 +236,11 @@ func (c *btcChain) header(height uint32) *wire.BlockHeader { return &c.headers[h
 
 // proof encodes a BIP37 partial merkle tree (merkleblock message) for transaction `pos` of the
 // block at `height`.
-func (c *btcChain) proof(height uint32, pos int) []byte {
+func (c *btcChain) proof(height uint32, pos int) []byte { return c.proofOf(height, []int{pos}, false) }
+
+// proofOf proves several positions at once; pad sets an unused padding bit of the flag bytes
+// (a different but equivalent encoding), when there is one.
+func (c *btcChain) proofOf(height uint32, poss []int, pad bool) []byte {
 	ids := c.blocks[height]
 	n := uint32(len(ids))
 	width := func(h uint32) uint32 { return (n + (1 << h) - 1) >> h }
@@ -257,7 +261,10 @@ func (c *btcChain) proof(height uint32, pos int) []byte {
 	var build func(h, p uint32)
 	build = func(h, p uint32) {
 		lo, hi := p<<h, (p+1)<<h
-		match := uint32(pos) >= lo && uint32(pos) < hi
+		match := false
+		for _, pos := range poss {
+			match = match || (uint32(pos) >= lo && uint32(pos) < hi)
+		}
 		bits = append(bits, match)
 		if h == 0 || !match {
 			hashes = append(hashes, calc(h, p))
@@ -285,6 +292,9 @@ func (c *btcChain) proof(height uint32, pos int) []byte {
 		if on {
 			flags[i/8] |= 1 << (uint(i) % 8)
 		}
+	}
+	if pad && len(bits)%8 != 0 {
+		flags[len(flags)-1] |= 0x80
 	}
 	wire.WriteVarBytes(&b, 0, flags)
 	return b.Bytes()
